@@ -10,6 +10,7 @@ from .consteval import NAN, Dec, Flt, Num, TDict, TList, TTuple, is_num, pure_me
 from .interp import (
     BUILTINS,
     BoundMeth,
+    Choice,
     Builtin,
     ClassVal,
     Dead,
@@ -894,6 +895,21 @@ class ExprMixin(object):
             if isinstance(a, TupleVal) and isinstance(b, TupleVal) and len(a.items) == len(b.items):
                 cs = [self.compare_sym(st, "==", x, y, node, module, False) for x, y in zip(a.items, b.items)]
                 r = mk_and(cs)
+                return r if sym == "==" else mk_not(r)
+        if sym in ("==", "!=") and isinstance(a, (Choice, ClassVal)) and isinstance(b, (Choice, ClassVal)):
+            # classes selected by conditions: equal exactly when the same class is selected
+            def alts(x):
+                if isinstance(x, ClassVal):
+                    return [(TRUE, x)]
+                out_ = []
+                for c_, y in ((x.cond, x.a), (mk_not(x.cond), x.b)):
+                    for c2, z in alts(y) if isinstance(y, (Choice, ClassVal)) else [(TRUE, y)]:
+                        out_.append((mk_and([c_, c2]), z))
+                return out_
+
+            la, lb = alts(a), alts(b)
+            if all(isinstance(z, ClassVal) for _, z in la + lb):
+                r = mk_or([mk_and([ca, cb]) for ca, za in la for cb, zb in lb if za.cls is zb.cls])
                 return r if sym == "==" else mk_not(r)
         raise AnalysisError("E5.cmp", "comparison of %r and %r" % (a, b), node, module)
 
